@@ -116,6 +116,8 @@ func (o hop) String() string {
 		return fmt.Sprintf("batch(%s:put k1=%s,del k2)", o.DB, o.V)
 	case "bigput":
 		return fmt.Sprintf("bigput(%s,2x60KB)", o.DB)
+	case "rbatch":
+		return fmt.Sprintf("reused-batch(%s:reset,put k2=%s,write)", o.DB, o.V)
 	case "drop":
 		return "drop(" + o.DB + ")"
 	case "open":
@@ -294,6 +296,8 @@ func runHistory(kind string, h []hop, perms []permChoice) (ops []kv.Op, m *model
 		ops = d.log.Ops
 	}()
 	sp := func(s string) *string { return &s }
+	reused := map[string]kvdb.Batch{} // one long-lived batch object per database (Write, Reset, refill, Write ...)
+	reusedOf := map[string]kvdb.Store{}
 	for _, o := range h {
 		if o.K == "flush" {
 			id := m.flush()
@@ -322,6 +326,16 @@ func runHistory(kind string, h []hop, perms []permChoice) (ops []kv.Op, m *model
 			err = b.Write()
 			m.write(o.DB, "k1", sp(o.V))
 			m.write(o.DB, "k2", nil)
+		case "rbatch":
+			b := reused[o.DB]
+			if b == nil || reusedOf[o.DB] != db {
+				b = db.NewBatch() // a new store handle (after a drop) needs a new batch object
+				reused[o.DB], reusedOf[o.DB] = b, db
+			}
+			b.Reset()
+			b.Put([]byte("k2"), []byte(o.V))
+			err = b.Write()
+			m.write(o.DB, "k2", sp(o.V))
 		case "bigput":
 			err = db.Put([]byte("k1"), []byte(big('p')))
 			if err == nil {
@@ -508,7 +522,7 @@ func main() {
 	quick := c.Quick()
 	var alpha []hop
 	for _, db := range []string{"a", "b"} {
-		alpha = append(alpha, hop{"put", db, "k1", "x"}, hop{"put", db, "k2", "y"}, hop{"del", db, "k1", ""}, hop{"batch", db, "", "z"}, hop{"drop", db, "", ""}, hop{"open", db, "", ""})
+		alpha = append(alpha, hop{"put", db, "k1", "x"}, hop{"put", db, "k2", "y"}, hop{"del", db, "k1", ""}, hop{"batch", db, "", "z"}, hop{"drop", db, "", ""}, hop{"open", db, "", ""}, hop{"rbatch", db, "", "w"})
 	}
 	alpha = append(alpha, hop{K: "flush"})
 	depth := 5
